@@ -229,6 +229,15 @@ def r09_2b(facts, res, table):
                 k = ppi
             if not ok_guard:
                 bad_ret = m
+    # ... and an even run cancels: the number of signs is taken modulo 2
+    st["instances"] += 1
+    parity = any(m.get("k") == "Binary" and ((m.get("op") == "%" and any(x.get("k") == "Lit" and x.get("v") == 2 for x in (m["a"], m["b"]))) or
+                                             (m.get("op") == "&" and any(x.get("k") == "Lit" and x.get("v") == 1 for x in (m["a"], m["b"]))))
+                 for m in walk(u["body"])) or any(m.get("k") == "Loop" or (m.get("k") == "Match" and m.get("src") == "ForLoop") for m in walk(u["body"]))
+    res.oblige(1, parity)
+    if not parity:
+        res.add(Finding("R09-2b", "unary-minus|parity", "eval_unary_expr does not look at the parity of the number of minus signs: --1 is -1",
+                        u["file"], u["line"], {}))
     res.oblige(1, bad_ret is None)
     if bad_ret is not None:
         res.add(Finding("R09-2b", "unary-minus|conversion", "eval_unary_expr returns its operand unconverted although minus signs were applied "
